@@ -9,9 +9,14 @@ MIN2 = {"hma", "linreg", "stdev", "medianabsdev"}
 QUICK_N = list(range(1, 17)) + [31, 32, 63, 64, 127, 128, 253, 254]
 
 
-def job(m, n, t, tier="q", core=True, cost=None, timeout=None):
+def job(m, n, t, tier="q", core=True, cost=None, timeout=None, shape=None):
     what = "%s length %d, %d steps: symbolic construction value and inputs over the reals; next() and peek() equal the documented formula evaluated from scratch on the explicit history at every step" % (NAMES[m], n, t)
-    return X("c02_" + m, {"n": n, "t": t}, what, tier=tier, core=core, cost=cost or (1 + n * n / 4000.0), timeout=timeout,
+    args = {"n": n, "t": t}
+    if shape is not None:
+        args["shape"] = shape
+        if shape != "f":
+            what += "; shaped stream '%s' (u up, d down, e equal, r return, s x1024, z zero, f free; symbolic magnitudes)" % shape
+    return X("c02_" + m, args, what, tier=tier, core=core, cost=cost or (1 + n * n / 4000.0), timeout=timeout,
              encodes=["src/methods/*.rs: %s::{new,next,peek}" % NAMES[m].split()[0], "src/core/window.rs: Window::{new,push,...}"])
 
 
@@ -38,9 +43,12 @@ def jobs():
         j.append(job("stdev", n, n + 3, tier="t", core=False, cost=30 + n))
     for m in ("meanabsdev", "cci"):
         for n in range(1, 9):
-            j.append(job(m, n, n + 3, cost=2 + n))
+            j.append(job(m, n, n + 3, cost=2 + n, shape="f" if m == "cci" else None))
         for n in range(9, 13):
-            j.append(job(m, n, n + 3, tier="t", core=False, cost=30))
+            j.append(job(m, n, n + 3, tier="t", core=False, cost=30, shape="f" if m == "cci" else None))
+    for sh in ("ure", "uuedd", "ues", "eeu", "zzf"):
+        for n in (2, 3, 5):
+            j.append(job("cci", n, n + 4, cost=5 + n, shape=sh))
     for n in (2, 3):
         j.append(job("medianabsdev", n, n + 2, cost=20 * n))
     j.append(job("medianabsdev", 4, 6, tier="t", core=False, cost=600, timeout=2400))
